@@ -247,6 +247,10 @@ class StackNode:
         if self.job_state is not None:
             self.job_state.is_job = True
             self.job_state.name = 'job:' + name
+            self.job_state.sleep_hook = self._check_sleep
+        self.sleep_checks = 0
+        self.fd_layer = '22' in str(dll)
+        self.sleep_problems = []
         # count what ecu.notify raises without changing what the listener sees
         inner = self.ecu.notify
 
@@ -315,6 +319,40 @@ class StackNode:
                         is_fd=fr.fd, is_remote_frame=fr.remote, is_error_frame=fr.error,
                         timestamp=self.bus.timestamp(), check=False)
         self.listener.on_message_received(m)
+
+    def _check_sleep(self, now, timeout, held=0.0):
+        """M-WAKE (invariant at a hook): the job thread is about to sleep on an EMPTY wake-up queue for `timeout` seconds.  No deadline that
+        is pending right now -- of a transport session, a Multi-PG buffer or a timer -- may lie before the end of that sleep (by more than a
+        millisecond): nothing would wake the thread for it.  Deadlines are read tolerantly from the private tables; what cannot be read is
+        not judged."""
+        if timeout is None:
+            end = float('inf')
+        else:
+            end = self.bus.sim.EPOCH + now + timeout
+        pend = []
+        try:
+            for nm in ('_snd_buffer', '_rcv_buffer', '_multi_pg_snd_buffer'):
+                tab = getattr(self.dll, nm, None)
+                if tab:
+                    for key, b in list(tab.items()):
+                        d = b.get('deadline') if isinstance(b, dict) else None
+                        if d:                       # 0 / None = no deadline
+                            # (J1939-22 deliberately does not wake the job thread for every data packet: the T1 supervision of a
+                            #  running inbound session may be served up to T2 - T1 = 0.5 s late; a legal choice, not judged)
+                            lazy = 0.55 if (nm == '_rcv_buffer' and self.fd_layer) else 0.0
+                            pend.append((d + lazy, '%s[%#x] state %s' % (nm, key, b.get('state'))))
+            for e in list(getattr(self.ecu, '_timer_events', None) or ()):
+                d = e.get('deadline') if isinstance(e, dict) else None
+                if d:
+                    pend.append((d, 'timer (period %s)' % e.get('delta_time')))
+        except Exception:
+            return
+        self.sleep_checks += 1
+        if pend:
+            d, what = min(pend)
+            # injected holds since the thread last slept by itself delay it by their length (e.g. between computing the sleep time and sleeping)
+            if d < end - 0.001 - held and len(self.sleep_problems) < 5:
+                self.sleep_problems.append((now, timeout, d - self.bus.sim.EPOCH, what))
 
     # --- observation helpers (private names read tolerantly) -----------------------------
     def tables(self):
